@@ -134,4 +134,25 @@ CLAIMS = {
          "half). At most one keepalive after the end of a session is accepted (its tick was already due). WebSocket pings are not driven. "
          "Interference of an old session's keepalive with a connection re-established by a StreamManager is not covered.",
     technique=TECH),
+ "C07": dict(
+    text="IQRoutes.tla models SendIQ callers, receivers (reading or abandoning), context goroutines, the server and one dispatch goroutine per "
+         "inbound IQ with the code's steps (lookup, claim, channel send, close). TLC checks no-panic / at-most-once / own-request / "
+         "not-to-ordinary-while-pending / no-stuck / closed-and-removed for all interleavings of 2 requests (distinct and clashing ids) x 3 responses, "
+         "and shows that each defect found in the code (D14 x2, D15) violates one of them. Every schedule TLC emits (exhaustive for 1 request x 2 "
+         "responses, sampled for 2 x 3) is replayed on a real Client/Router: each call, dispatch, receiver and cancellation is a goroutine stepped "
+         "through the gates inside the library in schedule order; gates are never judged. TLC judges the observable outcome: what each channel "
+         "yielded, which ordinary handlers ran, who is stuck, what is left in the table, worker death; plus concurrent duplicates through a real connection.",
+    note="Trusted: TLC, the gate scheduler (a step that reaches no gate within 40 ms counts as blocked). With clashing ids only safety is asserted. "
+         "Component.SendIQ shares Router code; the component's inline dispatch is exercised by C05/C16 drivers, not here.",
+    technique=TECH),
+ "C02": dict(
+    text="StreamParser.tla is the reference semantics of InitStream + NextPacket over token sequences (one output per top-level element, its kind "
+         "and addressing attributes, error for unknown namespace/name and where the input is damaged or ends) plus a generator of stream shapes; "
+         "TLC checks the reference against the generator's own rendering (one packet per element whatever it contains) for every stream of <= 2 "
+         "elements over 19 kinds x 7 content shapes and emits them. The harness serialises each with varied attributes/escapes/prefixes, tokenises "
+         "the bytes independently, reads them with the library through many segmentations, every truncation and seeded single-byte corruptions; "
+         "TLC runs the reference parser over the LOGGED tokens and compares - so inputs TLC never generated are judged by the specification too.",
+    note="Trusted: TLC, encoding/xml's tokeniser (shared with the library under test). After the first error the rest of a stream is unconstrained; "
+         "for corrupted inputs only the prefix before the damage, no panic and bounded time (4 s watchdog) are asserted.",
+    technique=TECH),
 }
